@@ -32,8 +32,8 @@ RULE = ("random orthogonal cells (1-5 atoms), grids 12-28 (odd/even/rectangular)
 CLAUSES = ["member:values", "member:axes", "mean:values", "config-axis", "displacement-model", "seeds-determine",
            "chunk-independence", "order-independence", "mode-independence", "pipeline-displacements",
            "atoms-ensemble-order"]
-QUICK = dict(n=34, time=48)
-THOROUGH = dict(n=900, time=420, shards=16)
+QUICK = dict(n=28, time=38)
+THOROUGH = dict(n=720, time=400, shards=16)
 
 POS_ATOL = 2e-6     # sigmas are stored in float32 by abTEM: |sigma*r| rounding <= 0.3*6*6e-8 ~ 1e-7
 RTOL = 2e-5
@@ -126,6 +126,12 @@ def fixed_cases(tier):
     out.append(dict(base, sigma_kind="aniso_dict", sigmas={"Si": [0.05, 0.1, 0.2], "C": [0.2, 0.02, 0.1], "Au": [0.03, 0.03, 0.3]},
                     seed=[5, 99, 1234, 77], num_configs=4, directions="zx", detector="flexible", ensemble_mean=True,
                     lazy=True, max_batch=1))
+    # one interior exit plane: every lazy block / a one-configuration ensemble holds exactly one (configuration, plane) pair
+    out.append(dict(base, lazy=True, exit_planes=[1], detector="pixelated"))
+    out.append(dict(base, num_configs=1, exit_planes=[2], detector="annular", ensemble_mean=True))
+    out.append(dict(base, lazy=True, exit_planes=[-1], builder="plane"))
+    # averaged SMatrix measurement without base axes (annular detector on explicit positions), eager
+    out.append(dict(base, source="smatrix", builder="smatrix", detector="annular", ensemble_mean=True))
     return out
 
 
